@@ -1316,6 +1316,8 @@ def r06_23(ctx: Ctx, rule: str = "R06.23") -> None:
 
 
 def run(ctx: Ctx) -> None:
+    from . import c04 as _c04s
+    _c04s.r04_18(ctx, rule="R06.25")  # the decoder's predicates say what their names say
     r06_23(ctx)
     from . import c04 as _c04
     _c04.r04_17(ctx, rule="R06.22")  # a member / folder without a stored CRC is a valid archive
